@@ -569,3 +569,286 @@ theorem downlinkOp_lawful : PLawful downlinkOp encWlb okDlBody where
   enc_ne := dl_enc_ne
   complete := dl_complete
   prefix_more := dl_prefix
+
+/-! ### routed request / response messages -/
+
+theorem rd_be4 {n : Nat} (h : n < 4294967296) : rd (be 4 n) = n := rd_be_lt (by simpa using h)
+
+/-- Reading the fixed 32-byte header. -/
+theorem hdr_parts (origin : Bytes) (a b c : Nat) (rest : Bytes) (ho : origin.length = 16) :
+    (origin ++ (be 4 a ++ (be 4 b ++ (be 8 c ++ rest)))).take 16 = origin ∧
+    ((origin ++ (be 4 a ++ (be 4 b ++ (be 8 c ++ rest)))).drop 16).take 4 = be 4 a ∧
+    ((origin ++ (be 4 a ++ (be 4 b ++ (be 8 c ++ rest)))).drop 20).take 4 = be 4 b ∧
+    ((origin ++ (be 4 a ++ (be 4 b ++ (be 8 c ++ rest)))).drop 24).take 8 = be 8 c ∧
+    (origin ++ (be 4 a ++ (be 4 b ++ (be 8 c ++ rest)))).drop 32 = rest ∧
+    (origin ++ (be 4 a ++ (be 4 b ++ (be 8 c ++ rest)))).length = 32 + rest.length := by
+  have d16 : (origin ++ (be 4 a ++ (be 4 b ++ (be 8 c ++ rest)))).drop 16 = be 4 a ++ (be 4 b ++ (be 8 c ++ rest)) :=
+    List.drop_left' ho
+  have d20 : (origin ++ (be 4 a ++ (be 4 b ++ (be 8 c ++ rest)))).drop 20 = be 4 b ++ (be 8 c ++ rest) := by
+    show List.drop (16 + 4) _ = _
+    rw [← List.drop_drop, d16]; exact List.drop_left' (be_length 4 a)
+  have d24 : (origin ++ (be 4 a ++ (be 4 b ++ (be 8 c ++ rest)))).drop 24 = be 8 c ++ rest := by
+    show List.drop (20 + 4) _ = _
+    rw [← List.drop_drop, d20]; exact List.drop_left' (be_length 4 b)
+  have d32 : (origin ++ (be 4 a ++ (be 4 b ++ (be 8 c ++ rest)))).drop 32 = rest := by
+    show List.drop (24 + 8) _ = _
+    rw [← List.drop_drop, d24]; exact List.drop_left' (be_length 8 c)
+  refine ⟨List.take_left' ho, ?_, ?_, ?_, d32, ?_⟩
+  · rw [d16]; exact List.take_left' (be_length 4 a)
+  · rw [d20]; exact List.take_left' (be_length 4 b)
+  · rw [d24]; exact List.take_left' (be_length 8 c)
+  · simp [ho]; omega
+
+/-- `msgAfterHeader` on a buffer whose header, node and lane are in place. -/
+theorem msgAfterHeader_ok {α : Type} (origin node lane rest : Bytes) (a b c : Nat) (ho : origin.length = 16)
+    (hn : utf8Valid node = true) (hl : utf8Valid lane = true)
+    (k : Bytes → Bytes → Bytes → Bytes → Bytes × Out α) :
+    msgAfterHeader (origin ++ (be 4 a ++ (be 4 b ++ (be 8 c ++ (node ++ (lane ++ rest)))))) node.length lane.length k
+      = k origin node lane rest := by
+  obtain ⟨h1, _, _, _, h5, _⟩ := hdr_parts origin a b c (node ++ (lane ++ rest)) ho
+  simp only [msgAfterHeader, h5, h1, List.take_left, List.drop_left, hn, hl, if_true]
+
+structure OkAddr (origin node lane : Bytes) : Prop where
+  ho : origin.length = 16
+  hn : node.length < 4294967296
+  hl : lane.length < 4294967296
+  un : utf8Valid node = true
+  ul : utf8Valid lane = true
+
+/-- One complete frame in front of `rest'` (the body, if any, and whatever follows). -/
+theorem rawRequest_frame (origin node lane rest : Bytes) (tag len : Nat) (A : OkAddr origin node lane)
+    (hlen : len < OPSH) (htag : tag < 8) (hr : len ≤ rest.length) :
+    rawRequest (origin ++ (be 4 node.length ++ (be 4 lane.length ++ (be 8 (len + tag * OPSH) ++
+        (node ++ (lane ++ rest))))))
+      = if tag = msgLink then (rest, .item ⟨origin, node, lane, .link⟩)
+        else if tag = msgSync then (rest, .item ⟨origin, node, lane, .sync⟩)
+        else if tag = msgUnlink then (rest, .item ⟨origin, node, lane, .unlink⟩)
+        else (rest.drop len, .item ⟨origin, node, lane, .command (rest.take len)⟩) := by
+  obtain ⟨h1, h2, h3, h4, h5, h6⟩ :=
+    hdr_parts origin node.length lane.length (len + tag * OPSH) (node ++ (lane ++ rest)) A.ho
+  have r2 := rd_be4 A.hn
+  have r3 := rd_be4 A.hl
+  have r4 : rd (be 8 (len + tag * OPSH)) = len + tag * OPSH := rd_be8 (by omega)
+  have m1 : (len + tag * OPSH) % OPSH = len := by omega
+  have m2 : (len + tag * OPSH) / OPSH = tag := by omega
+  unfold rawRequest
+  rw [h2, h3, h4, r2, r3, r4, m1, m2, h6, msgAfterHeader_ok origin node lane rest _ _ _ A.ho A.un A.ul]
+  have e1 : ¬ (32 + (node ++ (lane ++ rest)).length < headerInitLen) := by simp [headerInitLen]
+  have e2 : ¬ (32 + (node ++ (lane ++ rest)).length < headerInitLen + node.length + lane.length + len) := by
+    simp [headerInitLen]; omega
+  rw [if_neg e1, if_neg e2]
+
+/-- Well-formed address, and the whole frame is smaller than what the allocator refuses to reserve. -/
+def okReqMsg (m : ReqMsg) : Prop :=
+  OkAddr m.origin m.node m.lane ∧ (encReqMsg m).length < ALLOC_LIMIT
+
+theorem encReqMsg_shape (m : ReqMsg) :
+    ∃ tag len body, tag < 8 ∧ body.length = len ∧
+      (m.env = .link ∧ tag = msgLink ∧ len = 0 ∨ m.env = .sync ∧ tag = msgSync ∧ len = 0 ∨
+       m.env = .unlink ∧ tag = msgUnlink ∧ len = 0 ∨ m.env = .command body ∧ tag = msgCommand) ∧
+      encReqMsg m = m.origin ++ (be 4 m.node.length ++ (be 4 m.lane.length ++ (be 8 (len + tag * OPSH) ++
+        (m.node ++ (m.lane ++ body))))) := by
+  obtain ⟨o, n, l, e⟩ := m
+  cases e with
+  | link => exact ⟨msgLink, 0, [], by decide, rfl, Or.inl ⟨rfl, rfl, rfl⟩, by simp [encReqMsg, msgHeader]⟩
+  | sync => exact ⟨msgSync, 0, [], by decide, rfl, Or.inr (Or.inl ⟨rfl, rfl, rfl⟩), by simp [encReqMsg, msgHeader]⟩
+  | unlink =>
+    exact ⟨msgUnlink, 0, [], by decide, rfl, Or.inr (Or.inr (Or.inl ⟨rfl, rfl, rfl⟩)), by simp [encReqMsg, msgHeader]⟩
+  | command b =>
+    exact ⟨msgCommand, b.length, b, by decide, rfl, Or.inr (Or.inr (Or.inr ⟨rfl, rfl⟩)),
+      by simp [encReqMsg, msgHeader]⟩
+
+theorem rawRequest_complete (m : ReqMsg) (hm : okReqMsg m) (tail : Bytes) :
+    rawRequest (encReqMsg m ++ tail) = (tail, .item m) := by
+  obtain ⟨tag, len, body, htag, hbl, hk, henc⟩ := encReqMsg_shape m
+  obtain ⟨A, hb⟩ := hm
+  have hlen : len < OPSH := by
+    have := congrArg List.length henc
+    simp at this
+    omega
+  have := rawRequest_frame m.origin m.node m.lane (body ++ tail) tag len A hlen htag (by simp; omega)
+  rw [henc]
+  simp only [List.append_assoc] at this ⊢
+  rw [this]
+  obtain ⟨o, n, l, e⟩ := m
+  rcases hk with ⟨he, ht, hl0⟩ | ⟨he, ht, hl0⟩ | ⟨he, ht, hl0⟩ | ⟨he, ht⟩
+  · simp only at he; subst he ht hl0
+    have : body = [] := List.eq_nil_of_length_eq_zero hbl
+    subst this; simp
+  · simp only at he; subst he ht hl0
+    have : body = [] := List.eq_nil_of_length_eq_zero hbl
+    subst this; simp [msgSync, msgLink]
+  · simp only at he; subst he ht hl0
+    have : body = [] := List.eq_nil_of_length_eq_zero hbl
+    subst this; simp [msgSync, msgLink, msgUnlink]
+  · simp only at he; subst he ht hbl
+    simp [msgSync, msgLink, msgUnlink, msgCommand]
+
+theorem rawRequest_prefix (m : ReqMsg) (hm : okReqMsg m) (pre q : Bytes) (hpq : pre ++ q = encReqMsg m)
+    (hq : q ≠ []) : rawRequest pre = (pre, .more) := by
+  have hql : 0 < q.length := List.length_pos_iff.mpr hq
+  by_cases h : pre.length < 32
+  · simp [rawRequest, headerInitLen, h]
+  · obtain ⟨tag, len, body, htag, hbl, hk, henc⟩ := encReqMsg_shape m
+    obtain ⟨A, hb⟩ := hm
+    have hlenc := congrArg List.length henc
+    simp [A.ho] at hlenc
+    have hlen : len < OPSH := by omega
+    rw [henc] at hpq
+    have hpq' : pre ++ q = (m.origin ++ (be 4 m.node.length ++ (be 4 m.lane.length ++ be 8 (len + tag * OPSH)))) ++
+        (m.node ++ (m.lane ++ body)) := by simp [hpq]
+    obtain ⟨p', e1, e2⟩ := split_of_le hpq' (by simp [A.ho]; omega)
+    have e1' : pre = m.origin ++ (be 4 m.node.length ++ (be 4 m.lane.length ++ (be 8 (len + tag * OPSH) ++ p'))) := by
+      simp [e1]
+    have hl2 := congrArg List.length e2
+    simp at hl2
+    obtain ⟨h1, h2, h3, h4, h5, h6⟩ := hdr_parts m.origin m.node.length m.lane.length (len + tag * OPSH) p' A.ho
+    have r2 := rd_be4 A.hn
+    have r3 := rd_be4 A.hl
+    have r4 : rd (be 8 (len + tag * OPSH)) = len + tag * OPSH := rd_be8 (by omega)
+    have m1 : (len + tag * OPSH) % OPSH = len := by omega
+    have hres : afterReserve (α := ReqMsg) (headerInitLen + m.node.length + m.lane.length + len) pre = (pre, .more) :=
+      afterReserve_ok pre (by simp [headerInitLen]; omega)
+    unfold rawRequest
+    rw [e1'] at hres ⊢
+    rw [h2, h3, h4, r2, r3, r4, m1, h6]
+    have c1 : ¬ (32 + p'.length < headerInitLen) := by simp [headerInitLen]
+    have c2 : 32 + p'.length < headerInitLen + m.node.length + m.lane.length + len := by
+      simp [headerInitLen]; omega
+    rw [if_neg c1, if_pos c2, hres]
+
+theorem rawRequest_lawful : PLawful rawRequest encReqMsg okReqMsg where
+  enc_ne := by
+    intro m hm h
+    obtain ⟨tag, len, body, _, _, _, henc⟩ := encReqMsg_shape m
+    have := congrArg List.length (henc.symm.trans h)
+    simp [hm.1.ho] at this
+  complete := rawRequest_complete
+  prefix_more := rawRequest_prefix
+theorem rawResponse_frame (origin node lane rest : Bytes) (tag len : Nat) (A : OkAddr origin node lane)
+    (hlen : len < OPSH) (htag : tag < 8) (hr : len ≤ rest.length) :
+    rawResponse (origin ++ (be 4 node.length ++ (be 4 lane.length ++ (be 8 (len + tag * OPSH) ++
+        (node ++ (lane ++ rest))))))
+      = if tag = msgLinked then (rest, .item ⟨origin, node, lane, .linked⟩)
+        else if tag = msgSynced then (rest, .item ⟨origin, node, lane, .synced⟩)
+        else if tag = msgUnlinked then
+          (if len = 0 then (rest, .item ⟨origin, node, lane, .unlinked none⟩)
+           else (rest.drop len, .item ⟨origin, node, lane, .unlinked (some (rest.take len))⟩))
+        else (rest.drop len, .item ⟨origin, node, lane, .event (rest.take len)⟩) := by
+  obtain ⟨h1, h2, h3, h4, h5, h6⟩ :=
+    hdr_parts origin node.length lane.length (len + tag * OPSH) (node ++ (lane ++ rest)) A.ho
+  have r2 := rd_be4 A.hn
+  have r3 := rd_be4 A.hl
+  have r4 : rd (be 8 (len + tag * OPSH)) = len + tag * OPSH := rd_be8 (by omega)
+  have m1 : (len + tag * OPSH) % OPSH = len := by omega
+  have m2 : (len + tag * OPSH) / OPSH = tag := by omega
+  unfold rawResponse
+  rw [h2, h3, h4, r2, r3, r4, m1, m2, h6, msgAfterHeader_ok origin node lane rest _ _ _ A.ho A.un A.ul]
+  have e1 : ¬ (32 + (node ++ (lane ++ rest)).length < headerInitLen) := by simp [headerInitLen]
+  have e2 : ¬ (32 + (node ++ (lane ++ rest)).length < headerInitLen + node.length + lane.length + len) := by
+    simp [headerInitLen]; omega
+  rw [if_neg e1, if_neg e2]
+
+/-- Well-formed address, a frame smaller than what the allocator refuses to reserve, and not the one message
+whose wire form is shared with another (`Unlinked(Some(b""))` is written exactly like `Unlinked(None)`). -/
+def okRespMsg (m : RespMsg) : Prop :=
+  OkAddr m.origin m.node m.lane ∧ (encRespMsg m).length < ALLOC_LIMIT ∧ m.env ≠ .unlinked (some [])
+
+theorem encRespMsg_shape (m : RespMsg) (hne : m.env ≠ .unlinked (some [])) :
+    ∃ tag len body, tag < 8 ∧ body.length = len ∧
+      (m.env = .linked ∧ tag = msgLinked ∧ len = 0 ∨ m.env = .synced ∧ tag = msgSynced ∧ len = 0 ∨
+       m.env = .unlinked none ∧ tag = msgUnlinked ∧ len = 0 ∨
+       m.env = .unlinked (some body) ∧ tag = msgUnlinked ∧ len ≠ 0 ∨ m.env = .event body ∧ tag = msgEvent) ∧
+      encRespMsg m = m.origin ++ (be 4 m.node.length ++ (be 4 m.lane.length ++ (be 8 (len + tag * OPSH) ++
+        (m.node ++ (m.lane ++ body))))) := by
+  obtain ⟨o, n, l, e⟩ := m
+  cases e with
+  | linked => exact ⟨msgLinked, 0, [], by decide, rfl, Or.inl ⟨rfl, rfl, rfl⟩, by simp [encRespMsg, msgHeader]⟩
+  | synced =>
+    exact ⟨msgSynced, 0, [], by decide, rfl, Or.inr (Or.inl ⟨rfl, rfl, rfl⟩), by simp [encRespMsg, msgHeader]⟩
+  | unlinked b =>
+    cases b with
+    | none =>
+      exact ⟨msgUnlinked, 0, [], by decide, rfl, Or.inr (Or.inr (Or.inl ⟨rfl, rfl, rfl⟩)),
+        by simp [encRespMsg, msgHeader]⟩
+    | some b =>
+      have hb : b ≠ [] := by intro h; subst h; exact hne rfl
+      exact ⟨msgUnlinked, b.length, b, by decide, rfl,
+        Or.inr (Or.inr (Or.inr (Or.inl ⟨rfl, rfl, fun h => hb (List.eq_nil_of_length_eq_zero h)⟩))),
+        by simp [encRespMsg, msgHeader]⟩
+  | event b =>
+    exact ⟨msgEvent, b.length, b, by decide, rfl, Or.inr (Or.inr (Or.inr (Or.inr ⟨rfl, rfl⟩))),
+      by simp [encRespMsg, msgHeader]⟩
+
+theorem rawResponse_complete (m : RespMsg) (hm : okRespMsg m) (tail : Bytes) :
+    rawResponse (encRespMsg m ++ tail) = (tail, .item m) := by
+  obtain ⟨A, hb, hne⟩ := hm
+  obtain ⟨tag, len, body, htag, hbl, hk, henc⟩ := encRespMsg_shape m hne
+  have hlen : len < OPSH := by
+    have := congrArg List.length henc
+    simp at this
+    omega
+  have := rawResponse_frame m.origin m.node m.lane (body ++ tail) tag len A hlen htag (by simp; omega)
+  rw [henc]
+  simp only [List.append_assoc] at this ⊢
+  rw [this]
+  obtain ⟨o, n, l, e⟩ := m
+  rcases hk with ⟨he, ht, hl0⟩ | ⟨he, ht, hl0⟩ | ⟨he, ht, hl0⟩ | ⟨he, ht, hl0⟩ | ⟨he, ht⟩
+  · simp only at he; subst he ht hl0
+    have : body = [] := List.eq_nil_of_length_eq_zero hbl
+    subst this; simp
+  · simp only at he; subst he ht hl0
+    have : body = [] := List.eq_nil_of_length_eq_zero hbl
+    subst this; simp [msgSynced, msgLinked]
+  · simp only at he; subst he ht hl0
+    have : body = [] := List.eq_nil_of_length_eq_zero hbl
+    subst this; simp [msgSynced, msgLinked, msgUnlinked]
+  · simp only at he; subst he ht hbl
+    simp [msgSynced, msgLinked, msgUnlinked, hl0]
+  · simp only at he; subst he ht hbl
+    simp [msgSynced, msgLinked, msgUnlinked, msgEvent]
+
+theorem rawResponse_prefix (m : RespMsg) (hm : okRespMsg m) (pre q : Bytes) (hpq : pre ++ q = encRespMsg m)
+    (hq : q ≠ []) : rawResponse pre = (pre, .more) := by
+  have hql : 0 < q.length := List.length_pos_iff.mpr hq
+  by_cases h : pre.length < 32
+  · simp [rawResponse, headerInitLen, h]
+  · obtain ⟨A, hb, hne⟩ := hm
+    obtain ⟨tag, len, body, htag, hbl, hk, henc⟩ := encRespMsg_shape m hne
+    have hlenc := congrArg List.length henc
+    simp [A.ho] at hlenc
+    have hlen : len < OPSH := by omega
+    rw [henc] at hpq
+    have hpq' : pre ++ q = (m.origin ++ (be 4 m.node.length ++ (be 4 m.lane.length ++ be 8 (len + tag * OPSH)))) ++
+        (m.node ++ (m.lane ++ body)) := by simp [hpq]
+    obtain ⟨p', e1, e2⟩ := split_of_le hpq' (by simp [A.ho]; omega)
+    have e1' : pre = m.origin ++ (be 4 m.node.length ++ (be 4 m.lane.length ++ (be 8 (len + tag * OPSH) ++ p'))) := by
+      simp [e1]
+    have hl2 := congrArg List.length e2
+    simp at hl2
+    obtain ⟨h1, h2, h3, h4, h5, h6⟩ := hdr_parts m.origin m.node.length m.lane.length (len + tag * OPSH) p' A.ho
+    have r2 := rd_be4 A.hn
+    have r3 := rd_be4 A.hl
+    have r4 : rd (be 8 (len + tag * OPSH)) = len + tag * OPSH := rd_be8 (by omega)
+    have m1 : (len + tag * OPSH) % OPSH = len := by omega
+    have hres : afterReserve (α := RespMsg)
+        (headerInitLen + m.node.length + m.lane.length + len - (32 + p'.length)) pre = (pre, .more) :=
+      afterReserve_ok pre (by simp [headerInitLen]; omega)
+    unfold rawResponse
+    rw [e1'] at hres ⊢
+    rw [h2, h3, h4, r2, r3, r4, m1, h6]
+    have c1 : ¬ (32 + p'.length < headerInitLen) := by simp [headerInitLen]
+    have c2 : 32 + p'.length < headerInitLen + m.node.length + m.lane.length + len := by
+      simp [headerInitLen]; omega
+    rw [if_neg c1, if_pos c2, hres]
+
+theorem rawResponse_lawful : PLawful rawResponse encRespMsg okRespMsg where
+  enc_ne := by
+    intro m hm h
+    obtain ⟨tag, len, body, _, _, _, henc⟩ := encRespMsg_shape m hm.2.2
+    have := congrArg List.length (henc.symm.trans h)
+    simp [hm.1.ho] at this
+  complete := rawResponse_complete
+  prefix_more := rawResponse_prefix
+
+end SwimVerif.Frames
